@@ -92,6 +92,9 @@ impl Want {
 }
 
 pub struct OpWorld {
+    /// (canonical argument, spelling handed to the real command): lets a model work on canonical values while
+    /// the command receives an equivalent spelling (C18: path aliases through `.`, `//`, `dir/..`)
+    pub arg_rewrite: Vec<(String, String)>,
     pub ctx: Context,
     pub env: Env,
     pub out: SimWriter,
@@ -106,14 +109,15 @@ impl OpWorld {
         let out = SimWriter::new("out", vec![]);
         let err = SimWriter::new("err", vec![]);
         let env = Env::new(Some(Box::new(out.clone())), Some(Box::new(err.clone())), None);
-        OpWorld { ctx, env, out, err, instructions: vec![] }
+        OpWorld { arg_rewrite: vec![], ctx, env, out, err, instructions: vec![] }
     }
     /// run one command with the arguments given VERBATIM (they must be free of `$ % \\`, which the
     /// runner would interpret; the pools of the history properties are)
     pub fn run(&mut self, cmd: &str, args: &[String]) -> Out {
         let mut si = ScriptInstruction::new();
         si.command = Some(cmd.to_string());
-        si.arguments = if args.is_empty() { None } else { Some(args.to_vec()) };
+        let args: Vec<String> = args.iter().map(|a| self.arg_rewrite.iter().find(|(c, _)| c == a).map(|(_, sp)| sp.clone()).unwrap_or_else(|| a.clone())).collect();
+        si.arguments = if args.is_empty() { None } else { Some(args) };
         let instruction = Instruction { meta_info: InstructionMetaInfo::new(), instruction_type: InstructionType::Script(si) };
         let (result, _) = runner::run_instruction(
             &mut self.ctx.commands,
